@@ -47,6 +47,9 @@ SuppVert(kind, s) ==
       \* constraint exp(z2) <= exp(c2 + 1): it lands in another list of the shared support model, and must not
       \* be applied to the other scenarios
       [] kind = 7 -> BoxV(c[1] - 1, c[1] + 1, c[2] - 1, c[2] + 1)
+      \* kind 8: boxes of a different size per scenario (radius s in the first component): the best affine rule has a
+      \* different slope in every scenario, so event-wise rules that wrongly share coefficients cost something
+      [] kind = 8 -> BoxV(c[1] - s, c[1] + s, c[2] - 1, c[2] + 1)
 
 \* ---------------------------------------------------------------- probability sets (vertices, weights / DEN)
 Perms3(a, b, c) == {<<a, b, c>>, <<a, c, b>>, <<b, a, c>>, <<b, c, a>>, <<c, a, b>>, <<c, b, a>>}
@@ -71,7 +74,11 @@ ExptSets(kind) ==
       [] kind = 3 -> << [ev |-> "first", lo2 |-> <<1, -1>>, hi2 |-> <<3, 1>>] >>              \* scenario 1: centre +- 1/2
       [] kind = 4 -> << [ev |-> "all", lo2 |-> <<-2, -2>>, hi2 |-> <<2, 2>>],
                         [ev |-> "firsttwo", lo2 |-> <<-1, 1>>, hi2 |-> <<1, 3>>] >>           \* plus: scenarios {1,2}: (0,1) +- 1/2
+      [] kind = 5 -> << [ev |-> "lasttwo", lo2 |-> <<-1, 1>>, hi2 |-> <<1, 3>>] >>            \* a NON-prefix event: the last two scenarios
+      [] kind = 6 -> << [ev |-> "firsttwo", lo2 |-> <<-2, -2>>, hi2 |-> <<2, 2>>],
+                        [ev |-> "lasttwo", lo2 |-> <<-1, 0>>, hi2 |-> <<1, 2>>] >>            \* two overlapping events
 Event(ev, n) == CASE ev = "all" -> 1..n [] ev = "first" -> {1} [] ev = "firsttwo" -> 1..(IF n >= 2 THEN 2 ELSE 1)
+                  [] ev = "lasttwo" -> (IF n >= 2 THEN n - 1 ELSE 1)..n
 
 \* ---------------------------------------------------------------- pieces
 Pc(ax, az, axz, b) == [ax |-> ax, az |-> az, axz |-> axz, b |-> b]
